@@ -1,6 +1,165 @@
-(* placeholder while the model is being tied; replaced below *)
+(* Props/C14.v — pickle, copy and deepcopy reproduce every pendulum value exactly.
+   Only theorem statements; every proof is `exact <lemma>` (Proofs/C14Facts.v).
+   Model: Model/Pickle.v — the TRUSTED pickle/copy protocol applied to what the classes hand to it; the argument lists
+   (_getstate tuples, __deepcopy__ keyword lists, __getinitargs__, constructor parameters, method resolution) are DATA generated from
+   /repo's class bodies on every run (Gen/Reduce.v); the constructors are the direct datetime/date/time constructors,
+   Model/Duration.v (C09), interval_new, Timezone(key), FixedTimezone(offset, name).  Tied to /repo by the C14 correspondence run.
+   Routes: RPickle p (any protocol p), RCopy, RDeep;  not_deep r  means  r is a pickle protocol or copy.copy.
+   A DateTime is (wall microseconds W, fold, tzinfo); `zdb` maps a Timezone key to its tz table (Spec/Zone.v), universally quantified.
+   Theorems named *_refuted record genuine defects of /repo (known_findings/C14.json); *_partial hold on the stated region only. *)
 From Coq Require Import ZArith List Bool.
-From PV Require Import Lib.PyBase Model.Pickle.
-Theorem placeholder_c14 : tz_rebuild RCopy TzNone = Ok TzNone.
-Proof. reflexivity. Qed.
-Print Assumptions placeholder_c14.
+From Coq Require Import Floats.SpecFloat.
+From PV Require Import Lib.PyBase Spec.Cal Spec.Zone Spec.TdFloat Model.Duration Model.Pickle Proofs.ZoneFacts Proofs.C09Facts Proofs.C14Facts.
+Import ListNotations.
+Open Scope Z_scope.
+
+(* ---- values that every route reproduces exactly (equality of the whole value, hence of every accessor) *)
+Theorem roundtrip_date : forall r n, 1 <= n <= 3652059 -> date_rebuild r n = Ok n.
+Proof. exact date_rebuild_id. Qed.
+Print Assumptions roundtrip_date.
+
+Theorem roundtrip_timezone : forall r k, tz_rebuild r (TzNamed k) = Ok (TzNamed k).
+Proof. exact (fun r k => tz_rebuild_id r (TzNamed k) I). Qed.
+Print Assumptions roundtrip_timezone.
+
+Theorem roundtrip_fixed_timezone : forall r off name,
+  td_in_range (off * US_PER_SEC) = true -> tz_rebuild r (TzFixed off name) = Ok (TzFixed off name).
+Proof. exact (fun r off name H => tz_rebuild_id r (TzFixed off name) H). Qed.
+Print Assumptions roundtrip_fixed_timezone.
+
+(* ---- DateTime *)
+(* deepcopy: DateTime.__deepcopy__ passes every field, tz and fold *)
+Theorem roundtrip_datetime_deepcopy : forall v, dt_valid v -> dt_rebuild RDeep v = Ok v.
+Proof. exact dt_rebuild_deep. Qed.
+Print Assumptions roundtrip_datetime_deepcopy.
+
+(* pickle (every protocol) and copy.copy: what comes back is EXACTLY the fold=0 reading of the same fields and tzinfo *)
+Theorem datetime_pickle_copy_is_fold0_reading : forall r v, not_deep r -> dt_valid v ->
+  dt_rebuild r v = Ok (mkdt (dt_W v) false (dt_tz v)).
+Proof. exact dt_rebuild_pickle_copy. Qed.
+Print Assumptions datetime_pickle_copy_is_fold0_reading.
+
+(* hence exact on fold = 0 (naive or aware, every route) *)
+Theorem roundtrip_datetime_partial : forall r v, dt_valid v -> dt_fold v = false -> dt_rebuild r v = Ok v.
+Proof. exact dt_rebuild_fold0. Qed.
+Print Assumptions roundtrip_datetime_partial.
+
+(* and, with fold = 1, fields / UTC offset / UTC instant / zone still agree unless the zone distinguishes the two folds at this
+   wall second (fold_matters: a named zone where off_local z w false <> off_local z w true, i.e. repeated or skipped) *)
+Theorem roundtrip_datetime_instant_partial : forall zdb r v, not_deep r -> dt_valid v -> ~ fold_matters zdb v ->
+  exists v', dt_rebuild r v = Ok v' /\ dt_obs_nofold zdb v' = dt_obs_nofold zdb v.
+Proof. exact dt_pickle_copy_instant. Qed.
+Print Assumptions roundtrip_datetime_instant_partial.
+
+(* on the complementary region the copy is ALWAYS another instant with another offset (and fold) *)
+Theorem datetime_pickle_copy_changes_instant : forall zdb r v k, not_deep r -> dt_valid v ->
+  dt_tz v = TzNamed k -> dt_fold v = true -> ~ wall_unique (zdb k) (dt_W v / MEG) ->
+  exists v', dt_rebuild r v = Ok v' /\ dt_inst zdb v' <> dt_inst zdb v /\ dt_off zdb v' <> dt_off zdb v /\ dt_fold v' <> dt_fold v.
+Proof. exact dt_pickle_copy_changes. Qed.
+Print Assumptions datetime_pickle_copy_changes_instant.
+
+(* witness: Europe/Paris 2013-10-27T02:30 fold=1 (+01:00, a repeated wall time of a well-formed table) comes back +02:00, an hour earlier *)
+Theorem roundtrip_datetime_pickle_copy_refuted :
+  wf2_zone paris_2013 = true /\ wall_repeated paris_2013 (W_0230 / MEG) /\ dt_valid paris_0230_fold1 /\
+  dt_obs zdb_paris paris_0230_fold1 = [2013; 10; 27; 2; 30; 0; 0; 1; 1; 3600; W_0230 - 3600 * 1000000; 1; 0] /\
+  forall r, not_deep r -> exists v', dt_rebuild r paris_0230_fold1 = Ok v' /\
+    dt_obs zdb_paris v' = [2013; 10; 27; 2; 30; 0; 0; 0; 1; 7200; W_0230 - 7200 * 1000000; 1; 0].
+Proof. exact (conj paris_wf (conj paris_0230_repeated dt_pickle_witness)). Qed.
+Print Assumptions roundtrip_datetime_pickle_copy_refuted.
+
+(* ---- Time: Time._get_state has no fold and Time has no __deepcopy__: EVERY route returns the fold=0 reading *)
+Theorem time_every_route_is_fold0_reading : forall r v, tm_valid v -> tm_rebuild r v = Ok (mktm (tm_T v) false (tm_tz v)).
+Proof. exact tm_rebuild_eq. Qed.
+Print Assumptions time_every_route_is_fold0_reading.
+
+Theorem roundtrip_time_refuted : forall r, tm_rebuild r (mktm 9000000000 true TzNone) = Ok (mktm 9000000000 false TzNone).
+Proof. exact time_witness. Qed.
+Print Assumptions roundtrip_time_refuted.
+
+(* ---- Duration *)
+(* pickle / copy.copy go through timedelta.__reduce__: whatever comes back has the same native timedelta value, years = months = 0 *)
+Theorem duration_pickle_copy_keeps_native_drops_years_months : forall r days seconds us ms mi h w years months d d', not_deep r ->
+  duration_new days seconds us ms mi h w years months = Ok d -> dur_rebuild r d = Ok d' ->
+  d_N d' = d_N d /\ d_years d' = 0 /\ d_months d' = 0 /\ d_abs d' = false.
+Proof. exact dur_pickle_result. Qed.
+Print Assumptions duration_pickle_copy_keeps_native_drops_years_months.
+
+(* exact when years = months = 0, for every magnitude (no float premise: the same float pipeline runs on the same native value) *)
+Theorem roundtrip_duration_pickle_copy_partial : forall r days seconds us ms mi h w d, not_deep r ->
+  duration_new days seconds us ms mi h w 0 0 = Ok d ->
+  exists d', dur_rebuild r d = Ok d' /\ dur_public d' = dur_public d /\ d_total d' = d_total d /\ d_days d' = d_days d.
+Proof. exact dur_pickle_exact. Qed.
+Print Assumptions roundtrip_duration_pickle_copy_partial.
+
+(* Duration(years=1, months=2, days=3) comes back as Duration(weeks=61, days=1), years = months = 0 *)
+Theorem roundtrip_duration_pickle_copy_refuted : forall r, not_deep r ->
+  exists d d', duration_new 3 0 0 0 0 0 0 1 2 = Ok d /\ d_years d = 1 /\ d_months d = 2 /\ dur_rebuild r d = Ok d'
+    /\ d_years d' = 0 /\ d_months d' = 0 /\ d_weeks d' = 61 /\ d_rdays d' = 1 /\ dur_public d' <> dur_public d.
+Proof. exact dur_pickle_witness. Qed.
+Print Assumptions roundtrip_duration_pickle_copy_refuted.
+
+(* deepcopy: Duration.__deepcopy__ omits weeks.  Exact when weeks = 0, inside C09's exactness domain D9 and under C09's float premise
+   (float_split_exact_on_D9: not proved, validated on every run - it says the float normalisation of Duration.__new__ is exact on D9) *)
+Theorem roundtrip_duration_deepcopy_partial : float_split_exact_on_D9 ->
+  forall days seconds us ms mi h w years months d,
+  duration_new days seconds us ms mi h w years months = Ok d ->
+  D9 (d_N d) (YM years months * 86400) -> d_weeks d = 0 ->
+  exists d', dur_rebuild RDeep d = Ok d' /\ dur_public d' = dur_public d.
+Proof. exact dur_deep_exact. Qed.
+Print Assumptions roundtrip_duration_deepcopy_partial.
+
+(* ... and otherwise the copy is short of exactly weeks * 7 days (so it is a different timedelta whenever weeks <> 0) *)
+Theorem duration_deepcopy_loses_exactly_weeks_partial : float_split_exact_on_D9 ->
+  forall days seconds us ms mi h w years months d d',
+  duration_new days seconds us ms mi h w years months = Ok d ->
+  D9 (d_N d) (YM years months * 86400) -> dur_rebuild RDeep d = Ok d' ->
+  d_N d' = d_N d - d_weeks d * 7 * 86400000000.
+Proof. exact dur_deep_loses_weeks. Qed.
+Print Assumptions duration_deepcopy_loses_exactly_weeks_partial.
+
+(* Duration(weeks=2, days=3) deep-copies to Duration(days=3): 17 days become 3 *)
+Theorem roundtrip_duration_deepcopy_refuted :
+  exists d d', duration_new 3 0 0 0 0 0 2 0 0 = Ok d /\ d_weeks d = 2 /\ dur_rebuild RDeep d = Ok d' /\ d_weeks d' = 0
+    /\ td_norm (d_N d) = (17, 0, 0) /\ td_norm (d_N d') = (3, 0, 0) /\ dur_public d' <> dur_public d.
+Proof. exact dur_deep_witness. Qed.
+Print Assumptions roundtrip_duration_deepcopy_refuted.
+
+(* AbsoluteDuration: pickle / copy.copy keep everything except years / months (which come back 0) *)
+Theorem absolute_duration_pickle_copy_result : forall r days seconds us ms mi h w years months d d', not_deep r ->
+  absolute_duration_new days seconds us ms mi h w years months = Ok d -> dur_rebuild r d = Ok d' ->
+  d_N d' = d_N d /\ d_years d' = 0 /\ d_months d' = 0 /\ d_abs d' = true
+  /\ d_total d' = d_total d /\ d_weeks d' = d_weeks d /\ d_rdays d' = d_rdays d /\ d_seconds d' = d_seconds d /\ d_micro d' = d_micro d.
+Proof. exact absdur_pickle_result. Qed.
+Print Assumptions absolute_duration_pickle_copy_result.
+
+(* AbsoluteDuration(days=-3, hours=-5) (invert = True) deep-copies to a value with invert = False *)
+Theorem roundtrip_absolute_duration_deepcopy_refuted :
+  exists d d', absolute_duration_new (-3) 0 0 0 0 (-5) 0 0 0 = Ok d /\ dur_invert d = true /\ dur_rebuild RDeep d = Ok d'
+    /\ dur_invert d' = false /\ dur_public d' <> dur_public d.
+Proof. exact absdur_deep_witness. Qed.
+Print Assumptions roundtrip_absolute_duration_deepcopy_refuted.
+
+(* ---- Interval *)
+(* copy.copy: _getstate undoes the absolute swap, Interval(start, end, absolute) rebuilds the same value *)
+Theorem roundtrip_interval_copy : forall zdb s e a iv, interval_new zdb s e a = Ok iv -> iv_rebuild zdb RCopy iv = Ok iv.
+Proof. exact iv_copy_id. Qed.
+Print Assumptions roundtrip_interval_copy.
+
+(* pickle: exact when no endpoint is a DateTime with fold = 1 (Date endpoints, or fold 0) *)
+Theorem roundtrip_interval_pickle_partial : forall zdb p s e a iv, interval_new zdb s e a = Ok iv ->
+  ep_valid s -> ep_valid e -> ep_fold0 s -> ep_fold0 e -> iv_rebuild zdb (RPickle p) iv = Ok iv.
+Proof. exact iv_pickle_id_fold0. Qed.
+Print Assumptions roundtrip_interval_pickle_partial.
+
+(* [Paris 02:30 fold=1 -> 04:00], 90 minutes, pickles to a 150-minute interval *)
+Theorem roundtrip_interval_pickle_refuted : forall p,
+  exists iv iv', interval_new zdb_paris iv_wit_start iv_wit_end false = Ok iv /\ td_norm (iv_N iv) = (0, 5400, 0)
+    /\ iv_rebuild zdb_paris (RPickle p) iv = Ok iv' /\ td_norm (iv_N iv') = (0, 9000, 0)
+    /\ iv_obs zdb_paris iv' <> iv_obs zdb_paris iv.
+Proof. exact iv_pickle_witness. Qed.
+Print Assumptions roundtrip_interval_pickle_refuted.
+
+(* copy.deepcopy of ANY Interval raises TypeError (Duration.__deepcopy__ calls Interval(days=...)) *)
+Theorem roundtrip_interval_deepcopy_refuted : forall zdb iv, iv_rebuild zdb RDeep iv = Raise E_TypeError.
+Proof. exact iv_deep_raises. Qed.
+Print Assumptions roundtrip_interval_deepcopy_refuted.
